@@ -297,6 +297,57 @@ def oracle_reassign(good, expected, r):
     return None
 
 
+def impl_sheet_reparse(case):
+    """case = (ns, [[selector text, ...] per rule], prefs): a sheet with @namespace rules and style rules is parsed,
+    serialised under the given serializer preferences and parsed again; per-rule specificity lists of both parses"""
+    _setup()
+    import css_parser
+    ns, rules, prefs = case
+
+    def specs(sheet):
+        return [[list(s.specificity) for s in r.selectorList] for r in sheet.cssRules if r.type == r.STYLE_RULE]
+    old = css_parser.log.raiseExceptions
+    try:
+        css_parser.log.raiseExceptions = False
+        head = "".join(("@namespace %s '%s';" % (p, u)) if p else ("@namespace '%s';" % u) for p, u in ns)
+        css = head + "".join(",".join(sels) + "{x:1}" for sels in rules)
+        sheet = css_parser.parseString(css)
+        first = specs(sheet)
+        pr = css_parser.ser.prefs
+        try:
+            if prefs == "minified":
+                pr.useMinified()
+            elif prefs == "usedns":
+                pr.keepUsedNamespaceRulesOnly = True
+            text = sheet.cssText
+        finally:
+            pr.useDefaults()
+        if isinstance(text, bytes):
+            text = text.decode("utf-8")
+        second = specs(css_parser.parseString(text))
+        return ["OK", first, second, text]
+    except Exception as e:  # noqa
+        try:
+            css_parser.ser.prefs.useDefaults()
+        except Exception:  # noqa
+            pass
+        return ["CRASH", type(e).__name__, str(e)[:200]]
+    finally:
+        css_parser.log.raiseExceptions = old
+
+
+def oracle_sheet_reparse(exp, r):
+    if r[0] == "CRASH":
+        return "sheet serialise + re-parse raised %s: %s" % (r[1], r[2])
+    want = [[[0] + list(e) for e in rule] for rule in exp]
+    if r[1] != want:
+        return "parsed sheet reports %s, CSS definition gives %s" % (r[1], want)
+    if r[2] != want:
+        return "after serialising the sheet (%r) and parsing it again the specificities are %s, were %s" % (
+            r[3][:200], r[2], want)
+    return None
+
+
 def oracle_rule_reassign(exp, r):
     if r[0] == "SKIP":
         return None
@@ -1060,6 +1111,40 @@ def run(ctx):
         for _, v, wit in sorted(sfound, key=lambda x: x[0])[:50]:
             ctx.violation(v, wit, sig_text=json.dumps([wit["selectors"], wit["then"]]))
 
+    # ---- (h) sheets: @namespace rules + style rules, serialised under default / minified / keepUsedNamespaceRulesOnly
+    #          preferences and parsed again: per-rule specificity lists must be the by-construction ones both times
+    if binary:
+        gs = [(ns, text, tr) for (ns, w, tr), (_, text) in zip(asts, texts) if text and "," not in text.replace('","', "")]
+        hcases, hexp = [], []
+        k = 0
+        n_sheets = 6000 if thorough else 1200
+        while k < len(gs) - 4 and len(hcases) < n_sheets:
+            n_rules = rng.choice([1, 1, 2, 3])
+            rules, exp, nsu = [], [], []
+            for _ in range(n_rules):
+                n_sel = rng.choice([1, 1, 2])
+                part = gs[k:k + n_sel]
+                k += n_sel
+                rules.append([x[1] for x in part])
+                exp.append([x[2] for x in part])
+                for x in part:
+                    nsu += [y for y in x[0] if y not in nsu]
+            if len({a for a, _ in nsu}) != len(nsu):
+                continue
+            hcases.append((nsu, rules, rng.choice(["default", "minified", "minified", "usedns"])))
+            hexp.append(exp)
+        hres = ctx.pool_map(impl_sheet_reparse, hcases, procs=PROCS, chunksize=64)
+        stats["sheet_reparses"] = len(hcases)
+        hfound = []
+        for case, exp, r in zip(hcases, hexp, hres):
+            n_eval += 1
+            v = oracle_sheet_reparse(exp, r)
+            if v:
+                hfound.append((len(str(case[1])), v, {"kind": "sheetreparse", "ns": case[0], "rules": case[1], "prefs": case[2],
+                                                      "expected": exp}))
+        for _, v, wit in sorted(hfound, key=lambda x: x[0])[:50]:
+            ctx.violation(v, wit, sig_text=json.dumps([wit["rules"], wit["prefs"]]))
+
     if mism and os.environ.get("C16_DUMP"):
         open(os.environ["C16_DUMP"], "w").write(json.dumps(mism, indent=0, default=str))
     if mism:
@@ -1164,6 +1249,9 @@ def replay_one(w):
             if d is not None and st[3] != st[0]:
                 return "@page selector %r reports %s but re-parses to %s" % (st[2], st[0], st[3])
         return None
+    if w.get("kind") == "sheetreparse":
+        ns = [tuple(x) for x in w["ns"]]
+        return oracle_sheet_reparse(w["expected"], impl_sheet_reparse((ns, w["rules"], w["prefs"])))
     if w.get("kind") == "selectorlist":
         r = impl_selectorlist(([tuple(x) for x in w["ns"]], [tuple(x) for x in w["tokens"]]))
         got = [x[0] for x in r[1]] if r[0] == "ACC" else r[:2]
